@@ -1072,6 +1072,38 @@ def r_cumul(E):
             elif isinstance(n, ast.Call) and isinstance(n.func, ast.Name) and n.func.id in ("filter", "filterfalse") \
                     and n.args and isinstance(n.args[0], ast.Lambda):
                 ts = [n.args[0].body if n.func.id == "filter" else ast.UnaryOp(op=ast.Not(), operand=n.args[0].body)]
+            elif isinstance(n, ast.Call) and isinstance(n.func, ast.Attribute) and n.func.attr == "get" and n.args \
+                    and isinstance(n.args[0], ast.Constant) and isinstance(n.args[0].value, bool):
+                # the jobs split in two by a predicate (`{flag: list(group) for flag, group in groupby(sorted(jobs, key=P),
+                # key=P)}`) and one side taken: the side's test is P, or its negation
+                host_ = n
+                while host_ is not None and not isinstance(host_, ast.FunctionDef):
+                    host_ = getattr(host_, "_parent", None)
+                from ..astutil import fully_expanded as _fx_gb
+                d_ = _fx_gb(n.func.value, host_) if host_ is not None else n.func.value
+                gb = next((c_ for c_ in ast.walk(d_) if isinstance(c_, ast.Call) and norm(c_.func).split(".")[-1] == "groupby"), None) \
+                    if isinstance(d_, ast.DictComp) else None
+                key_ = None
+                if gb is not None:
+                    key_ = next((k_.value for k_ in gb.keywords if k_.arg == "key"), gb.args[1] if len(gb.args) > 1 else None)
+                pred = None
+                if isinstance(key_, ast.Lambda) and len(key_.args.args) == 1:
+                    pred = substitute(key_.body, {key_.args.args[0].arg: ast.Name(id="job", ctx=ast.Load())})
+                elif isinstance(key_, ast.Attribute) and isinstance(key_.value, ast.Name) and key_.value.id in ("self", "cls", "Storage"):
+                    h_ = pm.helper_finder("Storage")(key_.attr)
+                    b_ = [b for b in h_.body if not (isinstance(b, ast.Expr) and isinstance(b.value, ast.Constant))] if h_ is not None else []
+                    ps_ = [a.arg for a in h_.args.args] if h_ is not None else []
+                    if ps_ and ps_[0] in ("self", "cls"):
+                        ps_ = ps_[1:]
+                    if len(b_) == 1 and isinstance(b_[0], ast.Return) and b_[0].value is not None and len(ps_) == 1:
+                        pred = substitute(b_[0].value, {ps_[0]: ast.Name(id="job", ctx=ast.Load())})
+                elif isinstance(key_, ast.Name):
+                    h_ = pkg_fn(key_.id)
+                    b_ = [b for b in h_.body if not (isinstance(b, ast.Expr) and isinstance(b.value, ast.Constant))] if h_ is not None else []
+                    if len(b_) == 1 and isinstance(b_[0], ast.Return) and b_[0].value is not None and len(h_.args.args) == 1:
+                        pred = substitute(b_[0].value, {h_.args.args[0].arg: ast.Name(id="job", ctx=ast.Load())})
+                if pred is not None:
+                    ts = [pred if n.args[0].value else ast.UnaryOp(op=ast.Not(), operand=pred)]
             for t in ts:
                 # a predicate handed over as a lambda and applied on the spot reads as its body
                 while isinstance(t, ast.Call) and isinstance(t.func, ast.Lambda) and not t.keywords \
